@@ -85,7 +85,8 @@ def make_content(kind):
     if kind == "rest":
         return None, None
     if kind == "note":
-        return Note("E", 5), [("E", 5)]
+        # a Note object with a velocity and a channel of its own: the stored note is that note
+        return Note("E", 5, velocity=33, channel=7), [("E", 5, 33, 7)]
     if kind == "nc":
         return NoteContainer(["C", "E", "G"]), [("C", 4), ("E", 4), ("G", 4)]
     if kind == "str2":
@@ -98,7 +99,7 @@ def content_of(c):
         return None
     if not isinstance(c, NoteContainer):
         return ("not a NoteContainer", type(c).__name__)
-    return [(n.name, n.octave) for n in c.notes]
+    return [(n.name, n.octave) if (n.velocity, n.channel) == (64, 1) else (n.name, n.octave, n.velocity, n.channel) for n in c.notes]
 
 
 def key_of(bar):
@@ -190,7 +191,7 @@ def _container(content):
     if content is None:
         return None
     nc = NoteContainer()
-    nc.notes = [Note(n, o) for n, o in content]       # built without going through add_note
+    nc.notes = [Note(*x[:2]) if len(x) == 2 else Note(x[0], x[1], velocity=x[2], channel=x[3]) for x in content]       # built without going through add_note
     return nc
 
 
@@ -922,7 +923,8 @@ TRACK_RECIPES = [
     [("bar", 1), ("add", "rest", "4"), ("add", "note", "2")],
 ]
 NOTE_ARGS = ["str", "note", "nc", "bar"]
-SELECTIONS = [[], [0], [0, 1], [1, 2], [0, 2], [1]]
+# (negative numbers count from the end, as everywhere in Python: [-1] selects the last track)
+SELECTIONS = [[], [0], [0, 1], [1, 2], [0, 2], [1], [-1], [0, -1]]
 
 
 def build_recipe(i):
@@ -982,6 +984,7 @@ class CompositionSpec(BfsSpec):
                 S.count("tracks_added")
         elif act[0] == "note":
             before = [snapshot(t.track) for t in st.tracks]
+            chosen = set(i % len(st.tracks) for i in st.selected) if st.tracks else set()
             if act[1] == "bar" and len(st.selected) >= 2:
                 # the one Bar object would be appended to every selected track; what happens to an
                 # object shared between tracks is C15's subject (aliasing), not accumulation
@@ -990,6 +993,11 @@ class CompositionSpec(BfsSpec):
                 return
             if act[1] == "bar":
                 arg = Bar("D", (2, 4))
+                if rot:
+                    # a bar that was used before and emptied again is an empty bar like any other
+                    arg + "C"
+                    arg + "E"
+                    arg.empty()
             else:
                 arg, expect = make_content(act[1])
             if rot == 0:
@@ -1011,11 +1019,11 @@ class CompositionSpec(BfsSpec):
                 if st.tracks and len(st.selected) < len(st.tracks):
                     S.count("notes_added_with_unselected_tracks_present")
                 for i, ts in enumerate(st.tracks):
-                    if i not in st.selected and snapshot(ts.track) != before[i]:
+                    if i not in chosen and snapshot(ts.track) != before[i]:
                         S.problem("add_note(%s) changed track %d which is not selected" % (act[1], i), before[i], snapshot(ts.track))
         elif act[0] == "select":
             sel = SELECTIONS[act[1]]
-            if any(i >= len(st.tracks) for i in sel):
+            if any(i >= len(st.tracks) or -i > len(st.tracks) for i in sel) or len(set(i % len(st.tracks) for i in sel)) != len(sel):
                 if check:
                     S.count("selection_out_of_range_skipped")
                 return
